@@ -7,7 +7,11 @@ class C05(RecorderProp):
     ID = 'C05'
     RULE = ('random histories with capture faults, explicit discards, sampling outcomes, ordinary exceptions and interrupts at '
             'every step incl. inside intercepted bodies; every operation is followed by a replay of the recording it created '
-            'with the same program; spy cassette log create/save/abort; non-trivial = a run that opened a recording scope')
+            'with the same program; the kill switch (enable_recording / disable_recording) flipped by the running code at any step; spy '
+            'cassette log create/save/abort; + operations recorded through the asynchronous wrapper that another thread / the operation '
+            'itself closes at every point (before, between and after its interceptions, explicit flushes in between): what the '
+            'wrapped cassette then holds replays without a missing key or is flagged incomplete; non-trivial = a run that opened a '
+            'recording scope')
     OPTS = dict(ALL_OPTS, play_ratio=0.0, missing_play=False, cassettes=['memory', 'memory', 'file', 's3'], runs=(1, 3),
                 data=False)   # play_data answers differently while recording and replaying: not 'the same deterministic code'
     N = {'quick': 2500, 'thorough': 25000}
